@@ -152,6 +152,11 @@ func (db *DB) recover() error {
 		segments[i].meta.Full = true
 	}
 
+	// The replayed records were not necessarily flushed before the crash.
+	for _, seg := range segments {
+		seg.dirty = true
+	}
+
 	if err := removeRecoveryBackupFiles(db.opts.FileSystem); err != nil {
 		logger.Printf("error removing recovery backups files: %v", err)
 	}
